@@ -10,8 +10,11 @@ use crate::nd;
 
 const MAXLEN: usize = 40;
 
+/// A title word; its stem length is an ARBITRARY value in 1..=len (the ranking rules must not
+/// depend on where a stemmer cuts the word).
 fn ws(offset: usize, lo: usize, hi: usize, func: bool) -> WordShape {
-    WordShape { offset, slice: (lo, hi), stem: hi - lo, pos: if func { Some(PartOfSpeech::Article) } else { None }, fin: true }
+    let stem = nd::in_range(1, hi - lo);
+    WordShape { offset, slice: (lo, hi), stem, pos: if func { Some(PartOfSpeech::Article) } else { None }, fin: true }
 }
 
 fn wm(w: &WordShape, match_len: usize, typos: f64, func: bool, fin: bool) -> WordMatch {
